@@ -341,7 +341,9 @@ func check(propID, tier string, mode int, from, to uint64) int {
 		}
 	}
 
-	workDir := filepath.Join(verifDir, "work", propID+"-"+tier+"-"+strconv.FormatUint(seed, 10))
+	// one scratch directory per supervisor process: two runs of the same property (a check and an exploration, or
+	// two tiers started together) must not delete each other's worker files
+	workDir := filepath.Join(verifDir, "work", propID+"-"+tier+"-"+strconv.FormatUint(seed, 10)+"-"+strconv.Itoa(os.Getpid()))
 	os.RemoveAll(workDir)
 	os.MkdirAll(workDir, 0o755)
 	defer os.RemoveAll(workDir)
